@@ -67,7 +67,7 @@ Proof.
 Qed.
 
 Lemma fits_kids last : forall ros inner, fits last inner ros -> Forall (fun o => Forall wt (o_kids o)) ros.
-Proof. induction ros as [|o t IH]; intros inner H; [constructor|]. cbn in H. destruct H as (A & _ & C). constructor; eauto. Qed.
+Proof. induction ros as [|o t IH]; intros inner H; [constructor|]. cbn in H. destruct H as (_ & A & _ & C). constructor; eauto. Qed.
 
 (* ------------------------------------------------------------------ a task with open calls *)
 Definition good_task (max_stack : N) (tt : ttrace) : Prop :=
@@ -95,7 +95,7 @@ Lemma open_rows_self last : forall ros inner, fits last inner ros ->
 Proof.
   induction ros as [|o t IH]; intros inner Hf.
   - cbn. unfold okids_dur, sumN, inner_of. cbn. lia.
-  - cbn [fits] in Hf. destruct Hf as (_ & Hfit & Hrest). specialize (IH _ Hrest).
+  - cbn [fits] in Hf. destruct Hf as (_ & _ & Hfit & Hrest). specialize (IH _ Hrest).
     cbn [open_rows]. unfold sum_self in *. cbn [fold_right w_self].
     unfold okids_dur, sumN in *. cbn [map fold_right].
     assert (inner_of last inner (o :: t) = inner_of last (last - o_t0 o) t) as ->.
@@ -202,7 +202,7 @@ Qed.
 Lemma all_rows_good max_stack nms tts : Forall (good_task max_stack) tts ->
   Permutation (all_rows (mkcase max_stack nms (map trace_recs tts))) (concat (map spec_task tts)).
 Proof.
-  unfold all_rows. cbn [c_max c_tasks]. induction 1 as [|tt t Hg _ IH]; [constructor|].
+  unfold all_rows, all_rows_gen. cbn [c_max c_tasks]. fold task_rows. induction 1 as [|tt t Hg _ IH]; [constructor|].
   cbn [map concat]. apply Permutation_app; [apply task_rows_good, Hg|exact IH].
 Qed.
 
@@ -212,7 +212,7 @@ Theorem checker_accepts_model max_stack nms tts :
   sumN (map w_total (concat (map spec_task tts))) < M64 ->
   ok_table nms tts (report (mkcase max_stack nms (map trace_recs tts))) = true.
 Proof.
-  intros Hg Hb. unfold report. cbn [c_names].
+  intros Hg Hb. unfold report, report_gen. fold all_rows. cbn [c_names].
   rewrite (table_perm nms _ _ (all_rows_good max_stack nms tts Hg)).
   apply ok_table_of_spec; [exact Hb|].
   intros tt Htt. rewrite Forall_forall in Hg. apply (top_time_good max_stack), Hg, Htt.
